@@ -560,28 +560,6 @@ impl Session {
                 let last_reply = self.links[li].last_reply_us;
                 let e = format!("link {li}: new source address {src} (was {had:?}); registered={was_reg}, last reply let through {} ms ago", ts.saturating_sub(last_reply) / 1000);
                 self.ev(e);
-                if self.o.scenario == Scenario::Control
-                    && li == self.fault_link
-                    && let Some(ft) = self.ctl_fault_tick.take()
-                {
-                    // detection latency under the NEW timeout: from the receiver side's last datagram to this
-                    // link (the latest the sender can have heard from it) to the first frame from the re-opened
-                    // socket (kernel timestamp). Lawful: >= timeout (C08 rule above) and <= timeout + one
-                    // housekeeping period + processing; the start-up value (6000) or the built-in default
-                    // (5000) would take >= 5 s. Also counted in sender ticks.
-                    let took = self.ticks.saturating_sub(ft);
-                    let latency_ms = ts.saturating_sub(last_reply) / 1000;
-                    let bound_ms = self.ctl_new_timeout + 2500;
-                    self.count("C18.control_timeout_effect_checked");
-                    self.add("C18.control_detection_ticks_total", took as u64);
-                    self.add("C18.control_detection_latency_ms_total", latency_ms);
-                    if latency_ms > bound_ms && self.timing_reliable() {
-                        let d = format!("set_conn_timeout was answered with {} ms (stall guard {}), yet the black-holed link {li} was only torn down {latency_ms} ms after the last datagram it can have heard ({took} sender ticks after the fault began; lawful: {} .. {bound_ms} ms); the start-up value was {} ms", self.ctl_new_timeout, self.ctl_guard_desc, self.ctl_new_timeout, self.o.timeout_ms);
-                        self.viol("C18", "C18.live.set-conn-timeout-not-effective", d);
-                    } else {
-                        self.count("C18.control_changes_effective");
-                    }
-                }
                 // C08: never earlier than the timeout (unless a send failed: Restart scenario)
                 if was_reg && reg3_age > 1_500_000 && !matches!(self.o.scenario, Scenario::Restart) {
                     self.count("C08.teardown_vs_timeout_checked");
@@ -1078,6 +1056,26 @@ impl Session {
                 }
             }
         }
+        // C18 live: the black-holed link must show as timed out in the sender's own stats within
+        // ceil(new timeout) + 1 ticks (it carried traffic, so it was heard right up to the fault); the built-in
+        // default (5000 ms) or the start-up value (10000 ms) would need >= 5. The socket re-open comes later and is
+        // additionally subject to C08's 5 s retry spacing, so it is not what is measured here.
+        if self.o.scenario == Scenario::Control
+            && let Some(ft) = self.ctl_fault_tick
+            && !self.links[self.fault_link].st_connected
+        {
+            self.ctl_fault_tick = None;
+            let took = self.ticks.saturating_sub(ft);
+            let bound = self.ctl_new_timeout.div_ceil(1000) as u32 + 1;
+            self.count("C18.control_timeout_effect_checked");
+            self.add("C18.control_detection_ticks_total", took as u64);
+            if took > bound && self.timing_reliable() {
+                let d = format!("set_conn_timeout was answered with {} ms (stall guard {}), yet the black-holed link {} - the one carrying most of the traffic - only showed as timed out in the sender's stats {took} ticks after the fault began (bound {bound}); the start-up value was {} ms, the built-in default is 5000 ms", self.ctl_new_timeout, self.ctl_guard_desc, self.fault_link, self.o.timeout_ms);
+                self.viol("C18", "C18.live.set-conn-timeout-not-effective", d);
+            } else {
+                self.count("C18.control_changes_effective");
+            }
+        }
         self.count("ticks");
         self.sample_drops();
         self.scenario_step();
@@ -1387,8 +1385,9 @@ impl Session {
                 self.ev("stalled subscriber (60 subscriptions, never reads) and an abruptly disconnecting one are connected".into());
             }
             Scenario::Control => {
-                self.fault_link = self.rng.usize_below(n);
-                self.ctl_new_timeout = *self.rng.pick(&[1500u64, 2000]);
+                // the link that carries most of the traffic: it is heard from continuously until the fault
+                self.fault_link = (0..n).max_by_key(|i| self.links[*i].data_rx).unwrap_or(0);
+                self.ctl_new_timeout = *self.rng.pick(&[2500u64, 3000]);
                 let m = if self.o.classic { "enhanced" } else { "classic" };
                 self.ctl_new_mode = Some(m.to_string());
                 let q = self.rng.chance(1, 2);
@@ -1853,7 +1852,7 @@ pub fn gen_opts(rng: &mut Rng, scenario: Scenario, bin: &std::path::Path) -> Liv
     LiveOpts {
         n_links,
         classic: rng.chance(1, 2),
-        timeout_ms: if scenario == Scenario::Control { 6000 } else { *rng.pick(&[3000u64, 3000, 4000]) },
+        timeout_ms: if scenario == Scenario::Control { 10_000 } else { *rng.pick(&[3000u64, 3000, 4000]) },
         scenario,
         pps: *rng.pick(&[200u64, 800, 2000]),
         no_quality: rng.chance(1, 4),
